@@ -6,6 +6,7 @@ import os
 import shutil
 import tempfile
 
+import common
 import fsops
 from common import r_str, r_bytes
 
@@ -72,7 +73,7 @@ class OS(Backend):
 
     def close(self):
         Backend.close(self)
-        shutil.rmtree(self.dir, ignore_errors=True)
+        common.rm_rf(self.dir)
 
 
 class Temp(Backend):
